@@ -2,4 +2,5 @@
 pub mod bft;
 pub mod cli;
 pub mod kit;
+pub mod prim;
 pub mod props;
